@@ -36,9 +36,27 @@ theorem safe_subAssignRef (s t : Store) (hs : s.Inv) (ht : t.Inv) : Safe_subAssi
     | bitmap b =>
       exact BStore.safe_opBitmaps _ (fun x y hx _ => Nat.lt_of_le_of_lt Nat.and_le_left hx) a b hs ht
 
+theorem safe_orAssignRef (s t : Store) (hs : s.Inv) (ht : t.Inv) : Safe_orAssignRef s t := by
+  cases s with
+  | array v =>
+    cases t with
+    | array w => trivial
+    | bitmap b => exact BStore.safe_orArr v b ht hs.2
+  | bitmap a =>
+    cases t with
+    | array w => exact BStore.safe_orArr w a hs ht.2
+    | bitmap b => exact BStore.safe_opBitmaps _ (fun _ _ hx hy => Nat.or_lt_two_pow hx hy) a b hs ht
+
 end Store
 
 namespace Container
+
+theorem safe_orAssignRef (a b : Container) (ha : a.store.Inv) (hb : b.store.Inv) : Safe_orAssignRef a b :=
+  ⟨Store.safe_orAssignRef _ _ ha hb,
+   safe_ensureCorrectStore _ (Store.orAssignRef_spec bKernel a.store b.store ha hb).1⟩
+
+theorem inv_orAssignRef (a b : Container) (ha : a.store.Inv) (hb : b.store.Inv) : (a.orAssignRef b).store.Inv :=
+  Store.canon_inv _ (ensureCorrectStore_spec _ (Store.orAssignRef_spec bKernel a.store b.store ha hb).1).1
 
 theorem safe_andAssignRef (a b : Container) (ha : a.store.Inv) (hb : b.store.Inv) : Safe_andAssignRef a b :=
   ⟨Store.safe_andAssignRef _ _ ha hb,
@@ -81,6 +99,43 @@ theorem safe_andAR (a b : Bitmap) (ha : StoresInv a) (hb : StoresInv b) : Safe_a
 
 theorem safe_subAR (a b : Bitmap) (ha : StoresInv a) (hb : StoresInv b) : Safe_subAR a b :=
   fun cont hc => safe_searchStep b cont fun rc hrc => Container.safe_subAssignRef cont rc (ha cont hc) (hb rc hrc)
+
+theorem storesInv_orStep (self : Bitmap) (c : Container) (hs : StoresInv self) (hc : c.store.Inv) :
+    StoresInv (orStep Container.orAssignRef self c) := by
+  unfold orStep
+  rcases hsr : search self c.key with ⟨found, loc⟩
+  cases found with
+  | false =>
+    intro d hd
+    rcases List.mem_append.1 hd with h | h
+    · exact hs d ((List.take_sublist _ _).subset h)
+    · rcases List.mem_cons.1 h with h | h
+      · exact h ▸ hc
+      · exact hs d ((List.drop_sublist _ _).subset h)
+  | true =>
+    show StoresInv (match self[loc]? with
+      | some x => self.set loc (x.orAssignRef c)
+      | none => self)
+    cases hx : self[loc]? with
+    | none => exact hs
+    | some x =>
+      intro d hd
+      rcases List.mem_or_eq_of_mem_set hd with h | h
+      · exact hs d h
+      · exact h ▸ Container.inv_orAssignRef x c (hs x (List.mem_of_getElem? hx)) hc
+
+theorem safe_orAR : ∀ (cs : List Container) (self : Bitmap), StoresInv self → StoresInv cs → Safe_orAR self cs
+  | [], _, _, _ => by unfold Safe_orAR; trivial
+  | c :: cs, self, hs, hcs => by
+    have hc := hcs c (List.mem_cons_self ..)
+    unfold Safe_orAR
+    refine ⟨safe_search self c.key, ?_,
+      safe_orAR cs _ (storesInv_orStep self c hs hc) (fun d h => hcs d (List.mem_cons_of_mem _ h))⟩
+    split
+    · split
+      · next h => exact Container.safe_orAssignRef _ c (hs _ (List.mem_of_getElem? h)) hc
+      · trivial
+    · trivial
 
 end Bitmap
 
